@@ -1,5 +1,5 @@
 (* C03 — barriers (plan level). *)
-From Shred Require Import Base SrcParams Plan PlanObs PlanInv PlanLoc PlanBuild PlanProps.
+From Shred Require Import Base SrcParams Plan PlanObs PlanInv PlanLoc PlanBuild PlanProps PlanLemmas Exec ExecProps ExecPlan.
 
 (* For ANY program [pre ++ barrier :: post]: there is a stage index B such that everything
    registered before the barrier sits in a stage < B and everything registered after it in a
@@ -28,6 +28,20 @@ Print Assumptions C03_leading_barrier_is_identity.
 Theorem C03_thread_locals_unaffected : forall rs b, plan rs = Ok b -> b_tl b = tl_tags rs.
 Proof. exact plan_tl_order. Qed.
 Print Assumptions C03_thread_locals_unaffected.
+
+(* ---- run time: in EVERY trace everything registered before the barrier has released before
+   anything registered after it fetches ---- *)
+Theorem C03_barrier_separates_at_run_time :
+  forall pre post b t,
+  plan (pre ++ RBarrier :: post) = Ok b -> Forall reg_time_ok1 (pre ++ RBarrier :: post) ->
+  traces_disp (layout_tags b) (b_tl b) t ->
+  exists done1 done2,
+    map (fun e => o_tag (e_op e)) done1 = sys_tags pre /\
+    map (fun e => o_tag (e_op e)) done2 = sys_tags post /\
+    forall e1 e2, In e1 done1 -> In e2 done2 ->
+      precedes (ER (s_tag (e_sys e1))) (EF (s_tag (e_sys e2))) t.
+Proof. exact run_barrier_separates. Qed.
+Print Assumptions C03_barrier_separates_at_run_time.
 
 Example C03_example :
   let rs := [RBarrier; RSys 1 [] [] [] [] 3%Z; RBarrier; RBarrier; RSys 2 [] [] [] [] 3%Z; RTL 9; RBarrier] in
